@@ -213,12 +213,12 @@ class Model(core.BfsModel):
         vp = {self.pidx(x): x for x in net.verified_peers}
         svc = lambda s: SERVICES.index(s)  # noqa: E731
         return (
-            tuple(sorted(self._peer_sig(x) for x in net.verified_peers)),
+            tuple(self._peer_sig(x) for x in net.verified_peers),  # iteration order: lookups by address depend on it
             tuple(sorted((self.key_index[k], self._peer_sig(v), vp.get(self.key_index[k]) is v)
                          for k, v in net.verified_by_public_key_bin.items())),
-            tuple(sorted((self.aidx(a), self.key_index.get(v.introduced_by, -1),
-                          None if v.services is None else svc(v.services), v.new_style)
-                         for a, v in net._all_addresses.items())),
+            tuple((self.aidx(a), self.key_index.get(v.introduced_by, -1),
+                   None if v.services is None else svc(v.services), v.new_style)
+                  for a, v in net._all_addresses.items()),
             tuple(sorted((self.key_index[k], tuple(sorted(svc(s) for s in v)))
                          for k, v in net.services_per_peer.items())),
             tuple((self.aidx(a), self._peer_sig(x), vp.get(self.pidx(x)) is x)
